@@ -8,6 +8,7 @@ TStep(e) ==
   CASE e.a = "Handed"  -> EvHanded(e.t, e.v)
     [] e.a = "Deliver" -> EvDeliver(e.t, e.v, e.d)
     [] e.a = "Final"   -> EvFinal(e.rows, e.rowsback, e.cfgok, e.bestT, e.bestL, e.pstats, e.ostats)
+    [] e.a = "BestMore" -> EvBestMore(e.rows, e.t2, e.l2, e.p)
     [] e.a = "Crash"   -> EvCrash
 TNext == /\ l <= Len(Traces[tid].ev) /\ TStep(Traces[tid].ev[l]) /\ l' = l + 1 /\ tid' = tid
 TSpec == TInit /\ [][TNext]_tvars
